@@ -3,6 +3,40 @@
 use crate::sym::*;
 
 crate::harnesses! {
+    // N14 wrappers position_nonzero_arr / position_not_max_arr (unit trailing): std's Iterator::position on arrays of
+    // length 5 with any contents (bounded in length)
+    #[cfg_attr(kani, kani::unwind(7))] fn core_specs_position_len5() {
+        let a: [u64; 5] = any();
+        match a.iter().position(|&x| x != 0) {
+            Some(i) => {
+                assert!(i < 5 && a[i] != 0, "position: index of a non-zero limb");
+                let mut j = 0;
+                while j < i { assert!(a[j] == 0, "position: everything below is zero"); j += 1; }
+            }
+            None => { let mut j = 0; while j < 5 { assert!(a[j] == 0, "position None: all zero"); j += 1; } }
+        }
+        match a.iter().position(|&x| x != u64::MAX) {
+            Some(i) => {
+                assert!(i < 5 && a[i] != u64::MAX, "position: index of a limb that is not all ones");
+                let mut j = 0;
+                while j < i { assert!(a[j] == u64::MAX, "position: everything below is all ones"); j += 1; }
+            }
+            None => { let mut j = 0; while j < 5 { assert!(a[j] == u64::MAX, "position None: all ones"); j += 1; } }
+        }
+    }
+    // vstd's axioms for u64::trailing_zeros / trailing_ones as used by unit trailing
+    fn core_specs_trailing_zeros_facts() {
+        let x: u64 = any();
+        let t = x.trailing_zeros();
+        assert!((x == 0) == (t == 64), "trailing_zeros == 64 exactly for 0");
+        if x != 0 {
+            assert!((x >> t) & 1 == 1, "bit trailing_zeros is set");
+            let j: u32 = any();
+            assume(j < t);
+            assert!((x >> j) & 1 == 0, "bits below trailing_zeros are clear");
+        }
+        assert!(x.trailing_ones() == (!x).trailing_zeros(), "trailing_ones(x) == trailing_zeros(!x)");
+    }
     // assume_specification [u64::overflowing_add]: r.0 == (a + b) mod 2^64, r.1 == (a + b >= 2^64)
     fn core_specs_u64_overflowing_add_spec() {
         let a: u64 = any(); let b: u64 = any();
